@@ -365,6 +365,24 @@ pub fn un_operand(r: &mut Rng, i: u64) -> W {
     if r.chance(1, 3) {
         return tf_in_or_zero(r, -1000, 999);
     }
+    if r.chance(1, 5) {
+        // arguments on the reduction grids of the kernels (k/256, k/128, k/2 + 1/4, small integers,
+        // powers of two), alone or with a small low word: ties of the internal rounding steps
+        let hi = match r.below(5) {
+            0 => r.range(-180_000, 180_000) as f64 / 256.0,
+            1 => r.range(-1400, 1400) as f64 * 0.5 + 0.25,
+            2 => r.range(-64, 64) as f64,
+            3 => pow2(r.range(-30, 9)) * if r.coin() { 1.0 } else { -1.0 },
+            _ => r.range(-90_000, 90_000) as f64 / 128.0,
+        };
+        if hi != 0.0 {
+            if r.coin() {
+                return (hi, 0.0);
+            }
+            let (h, l, _) = tf_with_hi(r, hi);
+            return (h, l);
+        }
+    }
     match i {
         13 | 15 | 26 | 27 | 28 => tf_in(r, -30, 9),         // exp family / hyperbolic: |x| < 1024
         14 => tf_in(r, -30, 9),
